@@ -90,6 +90,32 @@ def rule_view(ck, units):
             ck.ob('view-keeps-scalar', key, f.where(), sr == sp, '' if sr == sp else 'in %s: a vector of %s is viewed as blocks of %s: the storage is reinterpreted in the precision of the matrix' % (f.full[:100], sp, sr))
 
 
+def rule_witness(ck):
+    """compile-fail witnesses: tus/type_witness.cpp holds one static_assert per identity of the value-type traits / backend mixing rules;
+    the unit is compiled (syntax only) against the current /repo, a failing assertion is a violation of that witness"""
+    import subprocess
+    ck.rule('type-witness', 'type-level identities the block / complex / mixed-precision formulations rely on hold for the current headers: common_scalar_backend picks the higher precision, '
+                            'scalar_of / rhs_of / replace_scalar / static_rows / is_static_matrix / inner_product result types, a block is exactly its N*M elements (compile-time witnesses)', 15)
+    src = os.path.join(ir.VERIF, 'tus', 'type_witness.cpp')
+    ids = re.findall(r'W\("(W\d+)",', open(src).read())
+    cmd = ['clang++', '-fsyntax-only', '-ferror-limit=0'] + ir.BASE_FLAGS + [src]
+    r = subprocess.run(cmd, capture_output=True, text=True)
+    failed = {}
+    other = []
+    for line in r.stderr.splitlines():
+        m = re.search(r'type_witness\.cpp:(\d+):\d+: error: static_assert failed.*"WITNESS (W\d+): (.*)"', line)
+        if m:
+            failed[m.group(2)] = (m.group(1), m.group(3))
+        elif ' error: ' in line:
+            other.append(line.strip())
+    if other:
+        ck.brk('type_witness.cpp does not compile apart from its assertions: %s' % other[0][:300])
+    for w in ids:
+        ok = w not in failed
+        ck.ob('type-witness', w, 'tus/type_witness.cpp:%s' % (failed[w][0] if not ok else '0'), ok, '' if ok else 'does not hold for the current headers: %s' % failed[w][1])
+    ck.extra['witness_cmd'] = ' '.join(cmd)
+
+
 def main(tier):
     ck = Check('C13', tier, 'C13 (clauses): block adapter iterator consistency; accumulation precision of mixed-precision matrix-vector kernels.')
     T = os.path.join(ir.VERIF, 'tus')
@@ -97,10 +123,17 @@ def main(tier):
     specs = [dict(name=n, src=os.path.join(T, n + '.cpp')) for n in names]
     units = ir.run_units(specs, 'C13')
     ck.add_units(units, specs)
+    ipspec = [dict(name='ip_unit', src=os.path.join(T, 'ip_unit.cpp'))]
+    ipu = ir.run_units(ipspec, 'C13i')
+    ck.add_units(ipu, ipspec)
     c17.rule_D(ck, units)
     c17.rule_E(ck, units, floor=1)   # the block adapter only ever sees row-sorted matrices (shared with C17)
     c17.rule_E_adapter(ck, units)
+    c17.rule_I(ck, units, floor=2)      # every gathered block starts from a reset value (shared with C17)
+    import c07
+    c07.conj_rule(ck, ipu)               # Eigen / static_matrix / complex blocks follow the same inner-product convention (shared with C07)
     rule_acc(ck, units)
     rule_view(ck, units)
+    rule_witness(ck)
     ck.assumptions += ['that block, complex-adapter, hybrid-backend and scalar formulations have the same entries / solutions, and that the mixed-precision solver reaches 1e-8, is numerical and NOT decided']
     return ck.finish()
